@@ -62,6 +62,7 @@ fn main() {
             Some("c02x") => gen_enc::gen_badplans(&mut out, seed, thorough),
             Some("c18m") => gen_enc::gen_planner(&mut out, seed, thorough),
             Some("c08") => gen_c08::gen(&mut out, seed, thorough),
+            Some("c05p") => gen_c08::gen_c05p(&mut out, seed, thorough),
             Some("c07") => gen_c07::gen(&mut out, seed, thorough),
             Some("c06") => gen_c06::gen(&mut out, seed, thorough),
             _ => {
